@@ -3,8 +3,8 @@
 # so that /repo stays untouched while other runs read it. Evidence is not written.
 set -u
 P=$(readlink -f "$1"); shift
-S=/tmp/verif-scratch2/repo
-if [ ! -d $S ]; then mkdir -p /tmp/verif-scratch2; git -C /repo worktree add --detach $S HEAD >/dev/null 2>&1 || exit 2; fi
+S=${VERIF_TRY_SCRATCH:-/tmp/verif-scratch2/repo}
+if [ ! -d $S ]; then mkdir -p $(dirname $S); git -C /repo worktree add --detach $S HEAD >/dev/null 2>&1 || exit 2; fi
 git -C $S checkout -q --detach $(git -C /repo rev-parse HEAD); git -C $S checkout -q -- .
 git -C $S apply "$P" || { echo "patch does not apply"; exit 2; }
 trap "git -C $S checkout -q -- ." EXIT
